@@ -39,28 +39,30 @@ Definition chain_inv (st : chain) : Prop :=
   blk_inv (vc_vs (ch_core st)) (ch_eng st) ∧
   (N.of_nat (size (vals (vc_vs (ch_core st)))) ≤ vc_maxv (ch_core st))%N.
 
-Lemma blk_last_sub s e : blk_inv s e → ∀ op, is_Some (last s !! op) → is_Some (vals s !! op).
+Lemma mid_last_sub s e : mid_inv s e → ∀ op, is_Some (last s !! op) → is_Some (vals s !! op).
 Proof.
-  intros ((_ & (He1 & _) & _) & _) op [p Hp]. destruct (He1 _ _ Hp) as (v & Hv & _). eauto.
+  intros (_ & (He1 & _) & _) op [p Hp]. destruct (He1 _ _ Hp) as (v & Hv & _). eauto.
 Qed.
+Lemma blk_last_sub s e : blk_inv s e → ∀ op, is_Some (last s !! op) → is_Some (vals s !! op).
+Proof. intros (Hm & _). by eapply mid_last_sub. Qed.
 
 (* GetLastValidators does not panic: bonded <= stored <= max, and every bonded operator has a record *)
 Lemma last_validators_Some maxv s e :
-  blk_inv s e → (N.of_nat (size (vals s)) ≤ maxv)%N → is_Some (last_validators maxv s).
+  mid_inv s e → (N.of_nat (size (vals s)) ≤ maxv)%N → is_Some (last_validators maxv s).
 Proof.
   intros Hb Hsz. unfold last_validators.
   assert (length (map fst (sorted_ops (last s))) = size (last s)) as Hlen.
   { rewrite map_length. rewrite sorted_ops_perm. done. }
-  rewrite Hlen. pose proof (size_le_of_sub (last s) (vals s) (blk_last_sub _ _ Hb)) as Hle.
+  rewrite Hlen. pose proof (size_le_of_sub (last s) (vals s) (mid_last_sub _ _ Hb)) as Hle.
   rewrite bool_decide_false by lia.
   apply mapM_is_Some. apply Forall_forall. intros op Hin. simpl.
   rewrite map_fmap in Hin. apply elem_of_list_fmap in Hin as ([o p] & -> & Hin).
   apply elem_of_sorted_ops in Hin. simpl.
-  destruct (blk_last_sub _ _ Hb o) as [v Hv]; [eauto|]. rewrite Hv. simpl. eauto.
+  destruct (mid_last_sub _ _ Hb o) as [v Hv]; [eauto|]. rewrite Hv. simpl. eauto.
 Qed.
 
 Lemma begin_block_Some maxv entries h s e hist :
-  blk_inv s e → (N.of_nat (size (vals s)) ≤ maxv)%N → is_Some (begin_block maxv entries h s hist).
+  mid_inv s e → (N.of_nat (size (vals s)) ≤ maxv)%N → is_Some (begin_block maxv entries h s hist).
 Proof.
   intros Hb Hsz. unfold begin_block. case_bool_decide; [eauto|].
   destruct (last_validators_Some maxv s e Hb Hsz) as [r ->]. simpl. eauto.
@@ -72,9 +74,17 @@ Proof.
   split; apply Forall_forall; intros u Hu; by apply Hwf.
 Qed.
 
+(* the weaker invariant that already suffices for a block to run: what an edited export
+   leaves behind (the engine holds the LAST powers, the records may carry other powers) *)
+Definition boot_inv (st : chain) : Prop :=
+  mid_inv (vc_vs (ch_core st)) (ch_eng st) ∧
+  (N.of_nat (size (vals (vc_vs (ch_core st)))) ≤ vc_maxv (ch_core st))%N.
+Lemma chain_boot_inv st : chain_inv st → boot_inv st.
+Proof. intros ((Hm & _) & Hsz). done. Qed.
+
 (* one block: never halts, the batch is well-formed against the engine's set, invariant restored *)
-Lemma block_spec st ops :
-  chain_inv st →
+Lemma block_spec_mid st ops :
+  boot_inv st →
   ∃ st' ups, block st ops = Some (st', ups) ∧ batch_wellformed (ch_eng st) ups ∧ chain_inv st' ∧
              ch_eng st' = apply_updates (ch_eng st) ups ∧ ch_height st' = (ch_height st + 1)%Z ∧
              end_block_post (vc_vs (foldl vop_exec (ch_core st) ops)) (ch_eng st) (vc_vs (ch_core st')) ups ∧
@@ -84,7 +94,7 @@ Proof.
   intros (Hb & Hsz). unfold block.
   destruct (begin_block_Some (vc_maxv (ch_core st)) (vc_entries (ch_core st)) (ch_height st + 1)
               (vc_vs (ch_core st)) (ch_eng st) (ch_hist st) Hb Hsz) as [hist' ->]. simpl.
-  assert (core_inv (ch_core st) (ch_eng st)) as Hc by (split; [apply Hb|done]).
+  assert (core_inv (ch_core st) (ch_eng st)) as Hc by (split; done).
   pose proof (foldl_vop_exec_inv ops _ _ Hc) as (Hm1 & Hsz1).
   destruct (end_block_spec _ _ Hm1) as (s' & ups & -> & Hpost). simpl.
   eexists _, _. split; [done|]. split; [by eapply end_block_post_wellformed|].
@@ -94,6 +104,15 @@ Proof.
   { apply size_le_of_sub. intros k [v Hv]. apply Hvals in Hv as (Hv & _). eauto. }
   lia.
 Qed.
+
+Lemma block_spec st ops :
+  chain_inv st →
+  ∃ st' ups, block st ops = Some (st', ups) ∧ batch_wellformed (ch_eng st) ups ∧ chain_inv st' ∧
+             ch_eng st' = apply_updates (ch_eng st) ups ∧ ch_height st' = (ch_height st + 1)%Z ∧
+             end_block_post (vc_vs (foldl vop_exec (ch_core st) ops)) (ch_eng st) (vc_vs (ch_core st')) ups ∧
+             vc_maxv (ch_core st') = vc_maxv (foldl vop_exec (ch_core st) ops) ∧
+             vc_entries (ch_core st') = vc_entries (foldl vop_exec (ch_core st) ops).
+Proof. intros H. apply block_spec_mid. by apply chain_boot_inv. Qed.
 
 (* what the invariant says in plain terms: the engine holds exactly (key, power) of the stored
    validators, all of which have positive power, and that is the last-power table through keys *)
@@ -510,7 +529,7 @@ Proof.
   destruct (foldl_vop_exec_inv ops _ _ Hc) as ((_ & (He1 & _) & _) & Hsz'). fold c in He1, Hsz'.
   split; [done|]. split.
   - apply size_le_of_sub. intros op [p Hp]. destruct (He1 _ _ Hp) as (v & Hv & _). eauto.
-  - intros h hist. by eapply begin_block_Some.
+  - intros h hist. eapply begin_block_Some; [apply Hb|done].
 Qed.
 
 (* a validator whose removal succeeded in a block is absent after that block's end blocker *)
@@ -611,7 +630,7 @@ Lemma history_block st ops st' ups :
 Proof.
   intros (Hb & Hsz) (lo & Hlo & Hdom & Hsn) Hh He Hblk h c.
   unfold block in Hblk. fold h c in Hblk.
-  destruct (last_validators_Some (vc_maxv c) (vc_vs c) (ch_eng st) Hb Hsz) as [r Hr].
+  destruct (last_validators_Some (vc_maxv c) (vc_vs c) (ch_eng st) (proj1 Hb) Hsz) as [r Hr].
   unfold begin_block in Hblk. rewrite bool_decide_false in Hblk by (unfold c in *; lia). rewrite Hr in Hblk. simpl in Hblk.
   destruct (end_block_updates _) as [[v' u']|]; simpl in Hblk; [|done]. simplify_eq. simpl.
   set (i := (h - Z.of_N (vc_entries c))%Z).
@@ -760,3 +779,155 @@ Proof.
   vm_compute in Hgen. simplify_eq. vm_compute in Hrun. simplify_eq.
   split; [reflexivity|]. split; [vm_compute; done|]. done.
 Qed.
+
+(* ---- edited export: last powers that differ from the validators' powers ---- *)
+(* ValidateGenesis does not look at LastValidatorPowers at all.  InitGenesis replays them as
+   updates with THOSE powers (and panics on an entry without validator); the first end blocker
+   then reconciles: (key, record power) for every changed one, removal for power 0, a first
+   update for validators that had no last power. *)
+Definition genesis_valid_edited (g : vgenesis) : Prop :=
+  validate_genesis g = true ∧ Forall (λ x, 0 ≤ x.2)%Z (g_vals g) ∧
+  NoDup (g_last g).*1 ∧ Forall (λ lv, (0 < lv.2)%Z ∧ lv.1 ∈ gen_ops (g_vals g)) (g_last g).
+
+Lemma genesis_mid0 l :
+  NoDup (gen_ops l) → NoDup (gen_keys l) → Forall (λ x, 0 ≤ x.2)%Z l → mid_inv (genesis_load l) ∅.
+Proof.
+  intros Hno Hnk Hpos. destruct (genesis_load_spec l Hno Hnk) as (Hlast & Hvals & Hidx).
+  split; [|split].
+  - intros k op. rewrite Hidx. split.
+    + intros [p Hin]. exists {| v_key := k; v_pow := p |}. split; [|done]. by apply Hvals.
+    + intros (v & Hv & <-). apply Hvals in Hv. eauto.
+  - split.
+    + intros op p. rewrite Hlast, lookup_empty. done.
+    + intros k p. rewrite lookup_empty. done.
+  - intros op v Hv. apply Hvals in Hv. rewrite Forall_forall in Hpos. apply Hpos in Hv. done.
+Qed.
+
+Lemma genesis_edited_spec g h0 :
+  genesis_valid_edited g → g_exported g = true →
+  ∃ st ups, genesis_chain g h0 = Some (st, ups) ∧ batch_wellformed ∅ ups ∧ boot_inv st ∧
+            ch_height st = h0 ∧ ch_hist st = ∅ ∧ ch_snaps st = ∅ ∧
+            vc_maxv (ch_core st) = g_maxv g ∧ vc_entries (ch_core st) = g_entries g ∧
+            vals (vc_vs (ch_core st)) = vals (genesis_load (g_vals g)) ∧
+            (∀ op p, last (vc_vs (ch_core st)) !! op = Some p ↔ (op, p) ∈ g_last g).
+Proof.
+  intros (Hv & Hpos & Hndl & Hlast) Hexp. apply validate_genesis_true in Hv as (Hnk & Hno & Hlen & Hm0).
+  pose proof (genesis_mid0 _ Hno Hnk Hpos) as (Hi0 & He0 & Hp0).
+  destruct (genesis_load_spec _ Hno Hnk) as (Hlast0 & Hvals0 & Hidx0).
+  set (s := genesis_load (g_vals g)) in *.
+  assert (∀ op p, (op, p) ∈ g_last g → (0 < p)%Z ∧ ∃ v, vals s !! op = Some v) as Hmem.
+  { intros op p Hin. rewrite Forall_forall in Hlast. destruct (Hlast _ Hin) as (Hp & Hop). simpl in *.
+    split; [done|]. unfold gen_ops in Hop. rewrite map_fmap in Hop.
+    apply elem_of_list_fmap in Hop as ([[o k] q] & -> & Hin'). simpl.
+    exists {| v_key := k; v_pow := q |}. by apply Hvals0. }
+  assert (let acc := foldl export_step (Some (s, [])) (g_last g) in
+          ∃ si ups, acc = Some (si, ups) ∧ vals si = vals s ∧ idx si = idx s ∧
+            eng_last si (apply_updates ∅ ups) ∧
+            (∀ op, op ∉ (g_last g).*1 → last si !! op = None) ∧
+            (∀ op p, (op, p) ∈ g_last g → last si !! op = Some p) ∧
+            NoDup ups.*1 ∧
+            (∀ u, u ∈ ups → (0 < u.2)%Z ∧ ∃ op v, vals s !! op = Some v ∧ v_key v = u.1 ∧ op ∈ (g_last g).*1)) as Hfold.
+  { apply (foldl_prefix_ind export_step (λ pre acc,
+      ∃ si ups, acc = Some (si, ups) ∧ vals si = vals s ∧ idx si = idx s ∧
+            eng_last si (apply_updates ∅ ups) ∧
+            (∀ op, op ∉ pre.*1 → last si !! op = None) ∧
+            (∀ op p, (op, p) ∈ pre → last si !! op = Some p) ∧
+            NoDup ups.*1 ∧
+            (∀ u, u ∈ ups → (0 < u.2)%Z ∧ ∃ op v, vals s !! op = Some v ∧ v_key v = u.1 ∧ op ∈ pre.*1))).
+    - exists s, []. split; [done|]. split; [done|]. split; [done|]. split; [exact He0|].
+      split; [intros op _; by rewrite Hlast0|]. split; [intros op p Hin; by apply elem_of_nil in Hin|].
+      split; [constructor|intros u Hu; by apply elem_of_nil in Hu].
+    - intros pre [op p] suf acc Hl (si & ups & -> & Hvs & Hix & Hel & Hun & Hvis & Hnd & Hsrc).
+      assert ((op, p) ∈ g_last g) as Hin by (rewrite Hl; apply elem_of_app; right; left).
+      apply Hmem in Hin as (Hppos & v & Hv).
+      assert (op ∉ pre.*1) as Hfresh.
+      { rewrite Hl, fmap_app in Hndl. simpl in Hndl. apply NoDup_app in Hndl as (_ & Hd & _).
+        intros Hin. apply (Hd _ Hin). left. }
+      assert (idx_ok si) as Hisi. { intros k o. rewrite Hix, Hvs. apply Hi0. }
+      assert (vals si !! op = Some v) as Hvsi by (by rewrite Hvs).
+      unfold export_step. simpl. rewrite Hvsi. simpl.
+      destruct (bond_inv_gen si (apply_updates ∅ ups) op v p Hisi Hel Hvsi) as (_ & Hel').
+      eexists _, _. split; [done|]. simpl. split; [done|]. split; [done|].
+      split.
+      { rewrite apply_updates_snoc. simpl. rewrite bool_decide_false by lia. exact Hel'. }
+      split.
+      { intros o Ho. rewrite fmap_app in Ho. simpl in Ho.
+        rewrite lookup_insert_ne; [apply Hun|]; intros ?; apply Ho; apply elem_of_app; [by left|right; subst; by left]. }
+      split.
+      { intros o q Hin. apply elem_of_app in Hin as [Hin|Hin].
+        - rewrite lookup_insert_ne; [by apply Hvis|]. intros <-. apply Hfresh. apply elem_of_list_fmap. by exists (op, q).
+        - apply elem_of_list_singleton in Hin. simplify_eq. by rewrite lookup_insert. }
+      split.
+      { rewrite fmap_app. simpl. apply NoDup_app. split; [done|]. split; [|apply NoDup_singleton].
+        intros k Hk Hk'. apply elem_of_list_singleton in Hk'. subst k.
+        apply elem_of_list_fmap in Hk as (u & Hku & Hu).
+        destruct (Hsrc _ Hu) as (_ & o & w & Hw & Hkw & Ho).
+        assert (o = op) as -> by (apply (idx_ok_inj s o op w v Hi0 Hw Hv); congruence). done. }
+      intros u Hu. apply elem_of_app in Hu as [Hu|Hu].
+      + destruct (Hsrc _ Hu) as (? & o & w & ? & ? & Ho). split; [done|]. exists o, w.
+        split; [done|]. split; [done|]. rewrite fmap_app. apply elem_of_app. by left.
+      + apply elem_of_list_singleton in Hu. subst u. simpl. split; [done|]. exists op, v.
+        split; [done|]. split; [done|]. rewrite fmap_app. apply elem_of_app. right. by left. }
+  destruct Hfold as (si & ups & Hacc & Hvs & Hix & Hel & Hun & Hvis & Hnd & Hsrc).
+  unfold genesis_chain, init_genesis. rewrite bool_decide_false by done. rewrite Hexp.
+  fold s. change (foldl _ (Some (s, [])) (g_last g)) with (foldl export_step (Some (s, [])) (g_last g)).
+  rewrite Hacc. simpl.
+  eexists _, _. split; [done|]. split.
+  { split; [by rewrite map_fmap|]. split; apply Forall_forall; intros u Hu.
+    - apply Hsrc in Hu as (? & _). lia.
+    - apply Hsrc in Hu as (? & _). lia. }
+  split.
+  { split; simpl.
+    - split; [|split].
+      + intros k o. rewrite Hix, Hvs. apply Hi0.
+      + exact Hel.
+      + intros o v. rewrite Hvs. apply Hp0.
+    - rewrite Hvs. pose proof (genesis_load_size (g_vals g) Hno). fold s in H. lia. }
+  simpl. rewrite Hvs. repeat (split; [done|]).
+  intros op p. split.
+  - intros Hl. destruct (decide (op ∈ (g_last g).*1)) as [Hin|Hnin].
+    + apply elem_of_list_fmap in Hin as ([o q] & -> & Hin). simpl in *.
+      rewrite (Hvis _ _ Hin) in Hl. by simplify_eq.
+    + rewrite (Hun _ Hnin) in Hl. done.
+  - apply Hvis.
+Qed.
+
+(* from an edited export: the genesis batch is well-formed, and after the first block (any
+   messages) and every later one the full invariant holds - engine = stored validators *)
+Lemma c13_edited_export_reconciled g h0 b bs :
+  genesis_valid_edited g → g_exported g = true →
+  ∃ st0 ups0 st bl, genesis_chain g h0 = Some (st0, ups0) ∧ batch_wellformed ∅ ups0 ∧
+    eng_last (vc_vs (ch_core st0)) (ch_eng st0) ∧
+    run_blocks st0 (b :: bs) = Some (st, bl) ∧ batches_ok ∅ (ups0 :: bl) ∧
+    ch_eng st = foldl apply_updates ∅ (ups0 :: bl) ∧
+    chain_inv st ∧ ch_eng st = state_set (vc_vs (ch_core st)) ∧
+    last (vc_vs (ch_core st)) = v_pow <$> vals (vc_vs (ch_core st)).
+Proof.
+  intros Hg Hexp.
+  destruct (genesis_edited_spec g h0 Hg Hexp) as (st0 & ups0 & Hgen & Hwf0 & Hboot & _).
+  destruct (block_spec_mid st0 b Hboot) as (st1 & ups1 & Hb & Hwf1 & Hinv1 & Heng1 & _).
+  destruct (run_blocks_spec bs st1 Hinv1) as (st & bl & Hrun & Hinv & _).
+  destruct (run_blocks_batches bs _ _ _ Hinv1 Hrun) as (Hok & Hfold).
+  assert (ch_eng st0 = apply_updates ∅ ups0) as He0.
+  { unfold genesis_chain in Hgen. destruct (init_genesis g) as [r|]; simpl in Hgen; [|done]. by simplify_eq. }
+  exists st0, ups0, st, (ups1 :: bl). split; [done|]. split; [done|]. split; [apply Hboot|].
+  split; [simpl; rewrite Hb; simpl; rewrite Hrun; done|].
+  rewrite Heng1 in Hok, Hfold. rewrite He0 in Hok, Hfold, Hwf1.
+  split; [split; [done|]; split; [exact Hwf1|exact Hok]|].
+  split; [exact Hfold|]. split; [done|]. destruct Hinv as (Hblk & _).
+  split; [by apply blk_inv_state_set|by eapply blk_inv_last].
+Qed.
+
+Definition edited_genesis : vgenesis :=
+  {| g_vals := [(1%N, 1%N, 3%Z); (2%N, 2%N, 0%Z); (3%N, 3%N, 1%Z)]; g_maxv := 3; g_entries := 1; g_exported := true;
+     g_last := [(1%N, 1%Z); (2%N, 4%Z)] |}.
+Example genesis_valid_edited_ex : genesis_valid_edited edited_genesis.
+Proof.
+  split; [vm_compute; reflexivity|].
+  split; [apply (bool_decide_unpack _); vm_compute; exact I|].
+  split; apply (bool_decide_unpack _); vm_compute; exact I.
+Qed.
+Example edited_export_first_block :
+  ∃ st0 ups0 st bl, genesis_chain edited_genesis 0 = Some (st0, ups0) ∧ ups0 = [(1%N, 1%Z); (2%N, 4%Z)] ∧
+    run_blocks st0 [[]] = Some (st, bl) ∧ bl = [[(1%N, 3%Z); (3%N, 1%Z); (2%N, 0%Z)]].
+Proof. eexists _, _, _, _. split; [vm_compute; reflexivity|]. split; [reflexivity|]. split; [vm_compute; reflexivity|]. reflexivity. Qed.
